@@ -148,6 +148,38 @@ theorem sigall_swap (env : Env) (proofs : List Proof) (outs : List Output) (h : 
     simp only [hv, (proofsSigAll_iff proofs).2 h, if_true] at hs
     exact ⟨rfl, verifyBlindedMessages_sound hs⟩
 
+/-- …and EXACTLY then, when a signature verifies under one key only: the swap check of a list containing a SIG_ALL input
+    succeeds iff every input passes its own check and the SIG_ALL demands are met. -/
+theorem sigall_swap_iff (env : Env) (proofs : List Proof) (outs : List Output) (h : ∃ p ∈ proofs, CarriesSigAll p)
+    (hu : ∀ keys, ∀ o ∈ outs, ∀ m, o.msgDecoded = some m → UniqueSigner env.valid m keys) :
+    swapSpendCheck env proofs outs = .ok () ↔ verifyProofs env proofs = .ok () ∧ SigAllOK env proofs outs := by
+  refine ⟨sigall_swap env proofs outs h, ?_⟩
+  rintro ⟨hv, hok⟩
+  unfold swapSpendCheck
+  simp only [hv, (proofsSigAll_iff proofs).2 h, if_true]
+  exact (verifyBlindedMessages_iff hu).2 hok
+
+/-- without any SIG_ALL input the outputs are not looked at -/
+theorem swap_without_sigall (env : Env) (proofs : List Proof) (outs : List Output) (h : ¬ ∃ p ∈ proofs, CarriesSigAll p) :
+    swapSpendCheck env proofs outs = verifyProofs env proofs := by
+  unfold swapSpendCheck
+  have : proofsSigAll proofs = false := by
+    cases hs : proofsSigAll proofs with
+    | false => rfl
+    | true => exact absurd ((proofsSigAll_iff proofs).1 hs) h
+  cases verifyProofs env proofs with
+  | err e => rfl
+  | ok u => simp [this]
+
+/-- "all inputs share the same condition", read declaratively: every input is a NUT-10 secret with SIG_ALL and well-formed
+    tags whose key list (last `pubkeys` tag, then the lock key for P2PK) is `keys` and whose threshold max(1, n_sigs) is `n`. -/
+theorem sigall_shared_condition_declarative (env : Env) (keys : List Key) (n : Nat) (q : Proof) :
+    SameCondition env keys n q ↔
+      ∃ sq, q.secret = some sq ∧ isSigAll sq = true ∧ WellFormed env sq.tags ∧
+        (if sq.kind = .p2pk then ∃ k, env.parseKey sq.data = some k ∧ keys = (condOf env sq.tags).pubkeys ++ [k]
+         else keys = (condOf env sq.tags).pubkeys) ∧
+        n = max 1 (condOf env sq.tags).nSigs := sameCondition_spec env keys n q
+
 /-- the same with the position explicit: the locked proof anywhere in the list -/
 theorem sigall_swap_any_position (env : Env) (pre post : List Proof) (p : Proof) (outs : List Output) (h : CarriesSigAll p)
     (hs : swapSpendCheck env (pre ++ p :: post) outs = .ok ()) : SigAllOK env (pre ++ p :: post) outs :=
